@@ -52,7 +52,9 @@ pub struct Variant {
     /// 0: backward on the result; 1: on a clone of it; 2: on a clone after dropping the original handle;
     /// 3: on a clone taken while the result's tracking was switched off by reference (and switched back on afterwards)
     pub pass_from: u8,
-    /// 0: read gradients through the original handles; 1: through clones taken before the pass; 2: after the pass
+    /// 0: read gradients through the original handles; 1: through clones taken before the pass; 2: after the pass;
+    /// 3: through the original handles after a detached copy (`h.clone().untracked()`) was taken and dropped; 4: the same
+    /// with the copy marked `.tracked()` and still alive while reading
     pub read_via: u8,
 }
 
@@ -90,7 +92,7 @@ impl Variant {
                 }
             }
         }
-        v.read_via = r.below(3) as u8;
+        v.read_via = r.below(5) as u8;
         v
     }
     pub fn mask(&self) -> String {
@@ -247,9 +249,21 @@ pub fn run_variant(p: &Program, v: &Variant, seed: Option<(&[usize], &[f64])>, u
             .map(|(j, l)| match v.read_via {
                 0 => gbits(h[*l].as_ref().unwrap()),
                 1 => gbits(pre_clones[j].as_ref().unwrap()),
-                _ => {
+                2 => {
                     let c = h[*l].as_ref().unwrap().clone();
                     gbits(&c)
+                }
+                3 => {
+                    // flags changed by value belong to the new handle alone
+                    let d = h[*l].as_ref().unwrap().clone().untracked();
+                    drop(d);
+                    gbits(h[*l].as_ref().unwrap())
+                }
+                _ => {
+                    let d = h[*l].as_ref().unwrap().clone().tracked();
+                    let g = gbits(h[*l].as_ref().unwrap());
+                    drop(d);
+                    g
                 }
             })
             .collect();
